@@ -328,8 +328,32 @@ def gen_env_history(rng, maxlen, multi=False):
     return p, ops, qs, lines
 
 
+def gen_env_refusal_history(rng, maxlen):
+    """round 5, symmetry with the chol/gso/svd stream `fullstate-refusal`: an AdjEnvelope object that is refused
+    (singular system, list too short) and then given a full-rank / a singular resolving system by `reset_new`"""
+    from props import c04_full as cf
+    p, _alg, ops, qs = cf.gen_refusal_history(rng, maxlen, alg="env")
+    k0 = ops.index("new env solver")
+    ops = ops[:k0] + ["new env solver", "envinfo", "state"]
+    lines = []
+    for q in qs:
+        lines.append(q)
+        if q.startswith("reset_new"):
+            lines.append("envinfo")
+        lines.append("state")
+        if not q.startswith(CONFIG_OPS):
+            lines.append("fresh " + q)
+    return p, ops, qs, lines
+
+
 def run_env_state(ctx, corr, exe, n, maxlen):
     gens = [gen_env_history(ctx.rng, maxlen, multi=(k % 2 == 1)) for k in range(n)]
+    rgens = [gen_env_refusal_history(ctx.rng, maxlen) for _ in range(max(12, n // 10))]
+    for (p_, _, _, _) in rgens:
+        for k_, v_ in p_["_refusal"].items():
+            corr.count("env_refusal_" + k_, v_)
+    corr.count("env_refusal_histories", len(rgens))
+    gens += rgens
     # regression inputs of fixed findings (corpus/C04/env-*.ops: stream format incl. envinfo/state/fresh lines)
     for f in sorted((ctx.verif / "corpus" / "C04").glob("env-*.ops")):
         ls = [l for l in f.read_text().splitlines() if l.strip() and not l.startswith(("#", "case "))]
